@@ -167,6 +167,8 @@ def o4_o5(prog, rep):
                 out.add((o, fld or bit))
         return out
     reg, can, get = u.func("events_network_register"), u.func("events_network_cancel"), u.func("events_network_get")
+    if not (rep.names(reg, "op") and rep.names(can, "op")):
+        return
     want_rc = {(READ, "reader"), (WRITE, "writer"), (READ, POLLIN), (WRITE, POLLOUT)}
     want_get = {(("ready", POLLIN), "reader"), (("ready", POLLOUT), "writer"), (("ready", POLLIN), POLLIN), (("ready", POLLOUT), POLLOUT)}
     for f, want in ((reg, want_rc), (can, want_rc), (get, want_get)):
